@@ -403,6 +403,7 @@ func (i *invoker) bidiStream(
 	}
 
 	var protoErr *conformancev1.Error
+	var receiveDone bool
 	totalRcvd := 0
 	for i, msg := range req.RequestMessages {
 		bsr := &conformancev1.BidiStreamRequest{}
@@ -441,6 +442,7 @@ func (i *invoker) bidiStream(
 				}
 				// Reads are done either because we received an error or an EOF
 				// In either case, break the outer loop
+				receiveDone = true
 				break
 			}
 			// On successful receive, get the returned payload.
@@ -472,8 +474,8 @@ func (i *invoker) bidiStream(
 		return result, nil
 	}
 
-	// Receive any remaining responses
-	for {
+	// Receive any remaining responses (unless we've already seen the end of the response stream)
+	for !receiveDone {
 		msg, err := stream.Receive()
 		if err != nil {
 			if !errors.Is(err, io.EOF) {
